@@ -5,6 +5,7 @@ package c11
 // without it, on the same membership, keys and block store; "err == nil" must agree request by request.
 
 import (
+	"math"
 	"strings"
 	"encoding/hex"
 	"fmt"
@@ -138,7 +139,7 @@ func prop(c c11Case) common.Result {
 		if len(prev) > 0 && !prev[ctx] {
 			replayAltered++
 		}
-		if prev[ctx] && len(distinctAccepted) > c.Cap {
+		if prev[ctx] && c.Cap > 0 && len(distinctAccepted) > c.Cap {
 			afterEviction++
 		}
 		if accepted {
@@ -541,7 +542,7 @@ func genCase(rt *rapid.T) c11Case {
 	if c.Scheme == "bls12" {
 		c.N = rapid.SampledFrom([]int{2, 4}).Draw(rt, "nbls")
 	}
-	c.Cap = rapid.SampledFrom([]int{1, 2, 3, 4, 5, 6, 7, 8, 100}).Draw(rt, "cap")
+	c.Cap = rapid.SampledFrom([]int{1, 2, 3, 4, 5, 6, 7, 8, 100, 1, 2, 3, 4, 5, 6, 7, 8, 100, -1, math.MinInt}).Draw(rt, "cap") // -1, MinInt: WithCache(MaxUint), WithCache(MaxInt+1)
 	c.Verifier = rapid.IntRange(1, c.N).Draw(rt, "verifier")
 	kinds := []string{"sign", "sign", "signbatch", "combine", "relabel", "verify", "verify", "verify", "batch", "batch", "mkqc", "mktc", "mkagg", "vcert", "vcert", "vcert", "signshaped", "verifyshaped", "verifyshaped", "nilsig", "permuted", "permuted", "retyped"}
 	maxOps := 60
